@@ -29,7 +29,9 @@ func callsIn(fn *ssa.Function, callee string) []ssa.CallInstruction {
 	return out
 }
 
-func rulePAIRpar2(w *World, r *Report) {
+type pairOpts struct{ encoder, decoder, slicing bool }
+
+func rulePAIRpar2(w *World, r *Report, o pairOpts) {
 	r.rule("PAIR", rulePAIRText)
 	enc, dec := w.Fn("(*par2.Encoder).ComputeParityData"), w.Fn("(*par2.Decoder).newCoderAndShards")
 	if enc == nil || dec == nil {
@@ -52,7 +54,7 @@ func rulePAIRpar2(w *World, r *Report) {
 			}
 		}
 		// dimensions
-		if len(e) == 1 {
+		if len(e) == 1 && o.encoder {
 			args := e[0].Common().Args
 			gp := callsIn(enc, "(rsec16.Coder).GenerateParity")
 			if len(gp) == 1 && isLenOf(args[0], gp[0].Common().Args[1]) {
@@ -66,7 +68,7 @@ func rulePAIRpar2(w *World, r *Report) {
 				r.bad("PAIR", "par2:encoder-parity-count", w.ipos(e[0]), "parity shard count is not the encoder's parityShardCount")
 			}
 		}
-		if len(d) == 1 {
+		if len(d) == 1 && o.decoder {
 			args := d[0].Common().Args
 			// returned data shards
 			var retData ssa.Value
@@ -91,7 +93,7 @@ func rulePAIRpar2(w *World, r *Report) {
 			}
 		}
 		// Repair hands exactly (dataShards from newCoderAndShards, d.parityShards) to ReconstructData
-		if rep := w.Fn("(*par2.Decoder).Repair"); rep != nil {
+		if rep := w.Fn("(*par2.Decoder).Repair"); rep != nil && o.decoder {
 			rc := callsIn(rep, "(rsec16.Coder).ReconstructData")
 			if len(rc) != 1 {
 				r.bad("PAIR", "par2:reconstruct-call", w.pos(rep.Pos()), fmt.Sprintf("Repair calls ReconstructData %d times", len(rc)))
@@ -113,6 +115,9 @@ func rulePAIRpar2(w *World, r *Report) {
 	}
 	// slice padding + checksums: writer computeDataFileInfo, reader fillShardInfos
 	wr, rd := w.Fn("par2.computeDataFileInfo"), w.Fn("par2.fillShardInfos")
+	if !o.slicing {
+		return
+	}
 	if wr == nil || rd == nil {
 		r.unk("PAIR", "par2:slicing", "-", "computeDataFileInfo / fillShardInfos not found")
 	} else {
